@@ -34,6 +34,22 @@ class OptStr:
         return OptStr(z3.Bool(name + "_none"), z3.String(name))
 
 
+class SymNum:
+    """An int-or-float operand: `is_float` (z3 Bool) is its run-time kind, `val` (z3 Real) its value. Over the reals."""
+
+    def __init__(self, name):
+        self.is_float = z3.Bool(name + "_is_float")
+        self.val = z3.Real(name)
+        self.name = name
+
+
+class TypeOf:
+    """type(x) of a SymNum."""
+
+    def __init__(self, num):
+        self.num = num
+
+
 class SymObj:
     def __init__(self, attrs=None, items=None, name="obj"):
         self.attrs = attrs or {}
@@ -71,6 +87,8 @@ def str_eq(a, b):
 
 
 def to_real(v):
+    if isinstance(v, SymNum):
+        return v.val
     if isinstance(v, bool):
         raise Unsupported("bool as number")
     if isinstance(v, int):
@@ -83,7 +101,7 @@ def to_real(v):
 
 
 def is_num(v):
-    return (isinstance(v, (int, float)) and not isinstance(v, bool)) or (
+    return isinstance(v, SymNum) or (isinstance(v, (int, float)) and not isinstance(v, bool)) or (
         z3.is_expr(v) and v.sort() in (z3.IntSort(), z3.RealSort()))
 
 
@@ -160,6 +178,8 @@ class Interp:
         return OptStr(z3.If(g, an, bn), z3.If(g, as_, bs), low)
 
     def truth(self, v):
+        if isinstance(v, SymNum):
+            return v.val != 0
         if isinstance(v, bool):
             return z3.BoolVal(v)
         if v is None:
@@ -193,6 +213,10 @@ class Interp:
             return str_eq(a, b)
         if isinstance(a, bool) and isinstance(b, bool):
             return z3.BoolVal(a == b)
+        if isinstance(a, SymNum) or isinstance(b, SymNum):
+            if is_num(a) and is_num(b):
+                return to_real(a) == to_real(b)   # Python compares int and float by value
+            return z3.BoolVal(False)
         if is_num(a) and is_num(b):
             if (isinstance(a, float) or isinstance(b, float) or
                     (z3.is_expr(a) and a.sort() == z3.RealSort()) or (z3.is_expr(b) and b.sort() == z3.RealSort())):
@@ -224,7 +248,13 @@ class Interp:
                 self.assign(st.target, new, env, guard, glob)
                 continue
             if isinstance(st, ast.If):
-                c = self.truth(self.expr(st.test, env, glob))
+                c = z3.simplify(self.truth(self.expr(st.test, env, glob)))
+                if z3.is_true(c) or z3.is_false(c):      # statically decided: the dead branch is not translated
+                    live = st.body if z3.is_true(c) else st.orelse
+                    guard = self.block(live, env, guard, rets, glob)
+                    if z3.is_false(z3.simplify(guard)):
+                        return guard
+                    continue
                 e1, e2 = dict(env), dict(env)
                 g1 = self.block(st.body, e1, z3.And(guard, c), rets, glob)
                 g2 = self.block(st.orelse, e2, z3.And(guard, z3.Not(c)), rets, glob)
@@ -276,6 +306,8 @@ class Interp:
         raise Unsupported("operator " + type(op).__name__)
 
     def _arith(self, l, r, f):
+        if isinstance(l, SymNum) or isinstance(r, SymNum):
+            return f(to_real(l), to_real(r))
         if isinstance(l, float) or isinstance(r, float) or any(
                 z3.is_expr(x) and x.sort() == z3.RealSort() for x in (l, r)):
             return f(to_real(l), to_real(r))
@@ -363,6 +395,8 @@ class Interp:
             return z3.Not(res) if isinstance(op, ast.NotEq) else res
         if not (is_num(l) and is_num(r)):
             raise Unsupported("ordering on non-numbers")
+        if isinstance(l, SymNum) or isinstance(r, SymNum):
+            l, r = to_real(l), to_real(r)
         if any(isinstance(x, float) or (z3.is_expr(x) and x.sort() == z3.RealSort()) for x in (l, r)):
             l, r = to_real(l), to_real(r)
         if isinstance(op, ast.Lt):
@@ -424,9 +458,49 @@ class Interp:
             raise Unsupported("int()")
         if fn is bool:
             return self.truth(args[0])
+        if fn is abs and is_num(args[0]):
+            v = to_real(args[0])
+            return z3.If(v >= 0, v, -v)
+        if fn is type and isinstance(args[0], SymNum):
+            return TypeOf(args[0])
+        if fn is isinstance:
+            return self.isinstance_(args[0], args[1])
+        if getattr(fn, "__name__", "") == "is_dataclass" and len(args) == 1 and isinstance(args[0], SymNum):
+            return False                      # an int/float is not a dataclass
         if inspect.isfunction(fn):
+            if not (getattr(fn, "__module__", "") or "").startswith("pedal"):
+                raise Unsupported("call into non-pedal function %s" % getattr(fn, "__qualname__", fn))
             return self.call(fn, args)
         raise Unsupported("call of %r" % (fn,))
+
+
+    def isinstance_(self, obj, cls):
+        import numbers
+        if isinstance(obj, SymNum):
+            if isinstance(cls, TypeOf):           # isinstance(x, type(y)) for int/float operands: same kind
+                return obj.is_float == cls.num.is_float
+            classes = cls if isinstance(cls, tuple) else (cls,)
+            out = z3.BoolVal(False)
+            for c in classes:
+                if isinstance(c, TypeOf):
+                    out = z3.Or(out, obj.is_float == c.num.is_float)
+                elif not isinstance(c, type):
+                    raise Unsupported("isinstance against %r" % (c,))
+                elif c is float:
+                    out = z3.Or(out, obj.is_float)
+                elif c is int:
+                    out = z3.Or(out, z3.Not(obj.is_float))
+                elif issubclass(float, c) and issubclass(int, c):
+                    out = z3.BoolVal(True)
+                elif issubclass(float, c):
+                    out = z3.Or(out, obj.is_float)
+                elif issubclass(int, c) or c in (numbers.Number,):
+                    out = z3.Or(out, z3.BoolVal(True) if c is numbers.Number else z3.Not(obj.is_float))
+                # any other class (str, list, generators, ...): an int/float is never an instance
+            return z3.simplify(out)
+        if isinstance(obj, (OptStr, SymObj, Opaque)) or z3.is_expr(obj):
+            raise Unsupported("isinstance of symbolic non-number")
+        return isinstance(obj, cls if not isinstance(cls, TypeOf) else object)
 
 
 # ---------------------------------------------------------------------------------------------
